@@ -184,10 +184,12 @@ static void check_tables(NifFile& model, const FmRange& f, bool checkReparse) {
 }
 
 // read-only query battery -> digest vector, compared before/after a save (C02)
-static std::vector<uint32_t> digest(NifFile& nif) {
+// geometryOnly: leave out block counts / reference indices (which a sorting, pruning save legitimately changes)
+static std::vector<uint32_t> digest(NifFile& nif, bool geometryOnly = false) {
 	std::vector<uint32_t> d;
 	NiHeader& hdr = nif.GetHeader();
-	d.push_back(hdr.GetNumBlocks());
+	if (!geometryOnly)
+		d.push_back(hdr.GetNumBlocks());
 	auto shapes = nif.GetShapes();
 	d.push_back((uint32_t) shapes.size());
 	for (auto s : shapes) {
@@ -217,11 +219,21 @@ static std::vector<uint32_t> digest(NifFile& nif) {
 		d.push_back((uint32_t) tex.size());
 		auto sh = nif.GetShader(s);
 		d.push_back(sh ? sh->GetShaderType() : 0xFFFF);
+		auto uvp = nif.GetUvsForShape(s);
+		if (uvp)
+			for (auto& u : *uvp) {
+				uint32_t b[2];
+				memcpy(b, &u, 8);
+				d.push_back(b[0]);
+				d.push_back(b[1]);
+			}
+		if (geometryOnly)
+			continue;
 		d.push_back(s->DataRef() ? s->DataRef()->index : 0xFFFFFFFE);
 		d.push_back(s->SkinInstanceRef() ? s->SkinInstanceRef()->index : 0xFFFFFFFE);
 		d.push_back((uint32_t) s->extraDataRefs.GetSize());
 	}
-	for (uint32_t i = 0; i < hdr.GetNumBlocks(); i++) {
+	for (uint32_t i = 0; i < hdr.GetNumBlocks() && !geometryOnly; i++) {
 		auto b = hdr.GetBlock<NiObject>(i);
 		const char* n = b->GetBlockName();
 		d.push_back((uint32_t) strlen(n) * 131 + (uint32_t) n[0]);
@@ -288,8 +300,10 @@ extern "C" void h_file_repeat(int ver, int feat, int raw) {
 	sym_assert(sym_out_equal(b.a, b.b, c.a, c.b), "C02-file-repeat3: third save of the same model differs from the second");
 	sym_assert(q1 == q2 && q2 == q3, "C02-queries: read-only queries answer differently after another save");
 	check_tables(nif, c, false);
-	// saving the freshly built (never loaded) model twice as well
+	// saving the freshly built (never loaded) model as well: queries before the first save == after it
+	auto p0 = digest(built, raw == 0);
 	FmRange x = fm_save(built, raw != 0);
+	sym_assert(digest(built, raw == 0) == p0, "C02-built-first: the first save of an API-built model changed what its queries return");
 	auto p1 = digest(built);
 	FmRange y = fm_save(built, raw != 0);
 	auto p2 = digest(built);
